@@ -194,7 +194,7 @@ Fixpoint json_parse_tree (fuel : nat) (here : path) (parent : ptr) (node : aval)
 Definition data_of_json (v : aval) : result ndata :=
   match v with
   | VStr s => Ok (DStr s) | VInt z => Ok (DInt z) | VFloat r => Ok (DFloat r) | VBool b => Ok (DBool b)
-  | _ => Err OtherExn
+  | _ => Err ParsingException        (* fix: null, a list or a map is no term *)
   end.
 
 (* functools.reduce(lambda l, r: Node(op, l, r), op_list): TypeError on an empty list *)
@@ -213,8 +213,10 @@ Fixpoint json_parse_ctc (fuel : nat) (info : aval) : result node :=
   | S fuel' =>
       match jget "type" info with Err e => Err e | Ok tv =>
       match jget "operands" info with Err e => Err e | Ok ov =>
-      match jstr tv with Err e => Err e | Ok ty =>
-      match jlist ov with Err e => Err e | Ok ops =>
+      (* fix: "operands" must be a list (a string used to be indexed by character); a type that is no string matches no
+         known type *)
+      match jlist ov with Err _ => Err ParsingException | Ok ops =>
+      match jstr tv with Err _ => Err ParsingException | Ok ty =>
         let sub (i : nat) : result node :=
           match nth_operand ops i with Err e => Err e | Ok x => json_parse_ctc fuel' x end in
         let bin2 (o : astop) : result node :=
